@@ -12,7 +12,7 @@ use crate::tape::Tape;
 pub static PROP: PropDef = PropDef {
     id: "C20",
     rule: "case = workload of 1..40 field sections on a small set of stream ids (ids reused for header + trailer), fields from an alphabet of 4..8 names x 4..8 values (some in the static table by name / name+value), \
-           table capacity in {0, 33..64, 100, 256, 4096}, blocked-stream limit in {0,1,2,100}, and a delivery schedule from the tape over {encode next section, deliver the next 1..n bytes of the encoder stream, try to decode a pending section, \
+           table capacity in {0, 1..32 (nothing fits), 33..64, 100, 256, 64..400, 4096}, blocked-stream limit in {0,1,2,100}, and a delivery schedule from the tape over {encode next section, deliver the next 1..n bytes of the encoder stream, try to decode a pending section, \
            acknowledge a decoded section, deliver bytes of the decoder stream to the encoder, cancel a stream}. oracles: (1) every section handed to h3's Decoder after all encoder-stream bytes produced before it were delivered decodes to exactly the original list; \
            handed earlier it gives that list or 'blocked' (MissingRefs), never another list or error; no encode / on_encoder_recv / on_decoder_recv of a legal exchange fails. (2) the independent RFC 9204 reference decoder, fed the same bytes, decodes every section to the original list. \
            (3) tracked by the reference: the table never exceeds its capacity and no instruction evicts an absolute index referenced by a section whose acknowledgement has not been delivered to the encoder. \
@@ -56,8 +56,10 @@ pub struct Workload {
 }
 
 fn gen_workload(t: &mut Tape) -> Workload {
-    let capacity = match t.pick(6) {
+    let capacity = match t.pick(7) {
         0 => 0,
+        // below and at the size of the smallest possible entry: nothing fits, every section must still decode
+        6 => t.int(1, 32) as usize,
         1 => t.int(33, 64) as usize,
         2 => 100,
         3 => 256,
